@@ -678,6 +678,7 @@ func writeEvidence(p *property, tier string, seed uint64, agg *aggregate, wall f
 		"configs":                   agg.perConfig,
 		"components":                p.components,
 		"worker_processes":          shards,
+		"repo_head":                 repoHead(), // commit (and "+dirty") of the tree the workers were built from
 		"known_findings_hit":        known,
 		"runs_ending_in_a_known_finding": agg.knownRuns,
 		"exhaustive":                false,
